@@ -17,16 +17,18 @@ SPEC = {
                   "'for all byte strings', the JSON / MessagePack decoders and panic-freedom of the handlers' Go code are covered by "
                   "fuzzing a real node over HTTP (TESTING, not proof)",
     "tie": "T2: tools/facts_c18 regenerates Generated/FactsC18.lean from the working tree on every run - numeric limits (as inclusive "
-           "ranges, so a flipped comparison shows), accepted string sets, the decision skeleton of all validation code, the middleware "
-           "chain, the route tables - pinned by C18_pin_*; the paging arithmetic of Shard.SearchPoints is TRANSLATED (sliceLo/sliceHi) and "
+           "ranges, so a flipped comparison shows), accepted string sets, the decision skeleton of all validation code and of indexManager.Search (what is executed of a query), "
+           "the recursion sites of Query.Validate / Query.ValidateSchema / indexManager.Search (which list, which filter, under which case: "
+           "C18_pin_dispatch), the middleware chain, the route tables - pinned by C18_pin_*; the paging arithmetic of Shard.SearchPoints is TRANSLATED (sliceLo/sliceHi) and "
            "C18_slice_bounds is proved about the translation. T3: every fuzzed request the real decoder accepts or refuses is rendered "
            "into the model's abstract JSON and the HTTP status is compared with the model's decision; uuid.Parse, CheckCompatibleMap + "
            "marshalled size, msgpack Query and page sizes are compared in-process / over HTTP on op lines.",
     "required_theorems": [
         "Sema.C18.C18_vec_len", "Sema.C18.C18_vec_len_search", "Sema.C18.C18_vec_len_stored",
         "Sema.C18.C18_accept_wf", "Sema.C18.C18_reject_pure", "Sema.C18.C18_no_panic", "Sema.C18.C18_headers",
+        "Sema.C18.C18_search_dormant", "Sema.C18.C18_search_status_live", "Sema.C18.C18_wrong_length_refused", "Sema.C18.C18_v1_by_type",
         "Sema.C18.C18_slice_bounds", "Sema.C18.C18_slice_bounds_pinned",
-        "Sema.C18.C18_pin_limits", "Sema.C18.C18_pin_enums", "Sema.C18.C18_pin_chain", "Sema.C18.C18_pin_routes", "Sema.C18.C18_pin_skeleton",
+        "Sema.C18.C18_pin_limits", "Sema.C18.C18_pin_enums", "Sema.C18.C18_pin_chain", "Sema.C18.C18_pin_routes", "Sema.C18.C18_pin_dispatch", "Sema.C18.C18_pin_skeleton",
         # tie theorems (SemaModel/C18/Tie.lean): ProductQ.valid = the Validate generated from models/quantizer.go
         "Sema.C18.C18_tie_productQ", "Sema.C18.C18_tie_productQ_error",
     ],
